@@ -95,6 +95,8 @@ class Ops:
                 return v[1][int(name)]
             except (ValueError, IndexError):
                 return ("field", v, name)
+        if k == "array" and name.isdigit() and int(name) < len(v[1]):
+            return v[1][int(name)]          # a constant tuple (decoded like an array)
         if k == "closure":
             try:
                 return v[2][int(name)]
@@ -406,8 +408,8 @@ def default_opaque(name):
     if name.startswith("<" + TYPES):
         return True
     tail = name.rsplit("::", 1)[-1]
-    if name.startswith("cozy_chess::moves::get_"):
-        return True
+    if name.startswith("cozy_chess::moves::get_") and "::" not in name[len("cozy_chess::moves::"):]:
+        return True            # the public look-up functions themselves (not helpers nested inside them)
     if name in ("cozy_chess::board::Board::king", "cozy_chess::board::Board::piece_on",
                 "cozy_chess::board::Board::color_on"):
         return True
@@ -428,7 +430,7 @@ BBASSIGN = {
 
 class SymExec:
     def __init__(self, facts, body, cgen=None, tgen=None, max_paths=20000, inline=None,
-                 opaque=None, max_inline_blocks=20, max_depth=4, params=None, entry_store=None, raw=False, count_next=False, peel=False, record_assigns=False):
+                 opaque=None, max_inline_blocks=20, max_depth=4, params=None, entry_store=None, raw=False, count_next=False, peel=False, record_assigns=False, unroll=0):
         self.facts = facts
         self.ops = Ops(facts)
         self.body = body
@@ -449,6 +451,7 @@ class SymExec:
         self.count_next = count_next
         self.peel = peel
         self.record_assigns = record_assigns
+        self.unroll = unroll          # >0: loops are executed as written (no cut, no havoc), at most this many visits per header
         self.types = {}
         self.dn = {}
         self._modset = {}
@@ -618,7 +621,7 @@ class SymExec:
         if n > self.max_inline_blocks:
             return False
         loops, _ = self.loops_of(b)
-        if loops:
+        if loops and not self.unroll:
             return False
         # no closure-typed generics
         return True
@@ -918,6 +921,11 @@ class SymExec:
     def enter_block(self, st, fr, bb):
         """Loop-header bookkeeping; returns False when the path ends here (back edge)."""
         loops, loopw = self.loops_of(fr.body)
+        if self.unroll and bb in loops:
+            key = ("visits", fr.fid, bb)
+            n = st.decided.get(key, 0) + 1
+            st.decided[key] = n
+            return n <= self.unroll
         if bb in loops and self.unrollable(st, fr, bb):
             return True        # iteration over an array whose elements are known: executed element by element
         if bb in loops:
@@ -1607,6 +1615,19 @@ class SymExec:
             if a[0] == "cnot":
                 return a[1]
             return ("cnot", a)
+        if name == "cozy_chess_types::square::Square::try_offset" and self.unroll and len(args) == 3 and \
+                args[0][0] == "enum" and args[1][0] == "int" and args[2][0] == "int":
+            # concrete coordinates: file+dx, rank+dy inside the board or None (C19 proves try_offset is this arithmetic)
+            v = args[0][2]
+            fi, ri = "ABCDEFGH".index(v[0]), int(v[1]) - 1
+
+            def sgn(x):
+                w = {"i8": 8, "i16": 16, "i32": 32, "i64": 64, "isize": 64}.get(x[2])
+                return x[1] - (1 << w) if w and x[1] >= (1 << (w - 1)) else x[1]
+            nf, nr = fi + sgn(args[1]), ri + sgn(args[2])
+            if 0 <= nf < 8 and 0 <= nr < 8:
+                return ("agg", "core::option::Option", "Some", 1, (("0", ("enum", args[0][1], "ABCDEFGH"[nf] + str(nr + 1))),))
+            return ("agg", "core::option::Option", "None", 0, ())
         if name in ("cozy_chess_types::square::Square::file", "cozy_chess_types::square::Square::rank"):
             a = args[0]
             if a[0] == "call" and a[1] == "cozy_chess_types::square::Square::new":
@@ -1653,6 +1674,11 @@ class SymExec:
                 a0 = self.deref(st, args[0]) if args[0][0] in ("ptr", "ref") else args[0]
                 a1 = self.deref(st, args[1]) if args[1][0] in ("ptr", "ref") else args[1]
                 return self.ops.bin(op, a0, a1)
+        if name in ("[T]::len", "core::slice::<impl [T]>::len") and len(args) == 1:
+            a = args[0]
+            v = self.deref(st, a) if a[0] in ("ptr", "ref") else a
+            if v[0] == "array":
+                return I(len(v[1]), "usize")
         if name in ("[T]::iter", "core::slice::<impl [T]>::iter") and len(args) == 1:
             a = args[0]
             v = self.deref(st, a) if a[0] in ("ptr", "ref") else a
